@@ -623,3 +623,158 @@ def dump_fn(f, out=None):
             out.write("    GOTO bb%d\n" % t["target"])
         else:
             out.write("    %s\n" % k.upper())
+
+
+# ---- use sites ---------------------------------------------------------------
+
+def rv_operands(rv):
+    for key in ("op", "l", "r", "x"):
+        if key in rv and isinstance(rv[key], dict):
+            yield rv[key]
+    for o in rv.get("ops", ()):
+        yield o
+
+
+def rv_places(rv):
+    """places read by an rvalue (operands + ref/discr places)"""
+    for o in rv_operands(rv):
+        p = op_place(o)
+        if p is not None:
+            yield p
+    if "place" in rv:
+        yield rv["place"]
+
+
+def place_locals(p):
+    yield p["l"]
+    for pr in p["p"]:
+        if isinstance(pr, dict) and "idx" in pr:
+            yield pr["idx"]
+
+
+def fn_uses(f, l):
+    """all read uses of local l: list of (bb, kind, obj) with kind 'stmt'/'term';
+    a statement writing to a projection of l counts as use as well"""
+    out = []
+    for bi, si, st in f.stmts():
+        if st["k"] != "assign":
+            if l in place_locals(st["place"]):
+                out.append((bi, "stmt", st))
+            continue
+        hit = False
+        for p in rv_places(st["rv"]):
+            if l in place_locals(p):
+                hit = True
+        if st["place"]["p"] and l in place_locals(st["place"]):
+            hit = True
+        if hit:
+            out.append((bi, "stmt", st))
+    r = f.reachable()
+    for bi, b in enumerate(f.blocks):
+        if b["cleanup"] or bi not in r:
+            continue
+        t = b["term"]
+        hit = False
+        if t["k"] == "call":
+            for a in t["args"]:
+                p = op_place(a)
+                if p is not None and l in place_locals(p):
+                    hit = True
+            if "fn_op" in t:
+                p = op_place(t["fn_op"])
+                if p is not None and l in place_locals(p):
+                    hit = True
+            if t["dest"]["p"] and l in place_locals(t["dest"]):
+                hit = True
+        elif t["k"] == "switch":
+            p = op_place(t["discr"])
+            if p is not None and l in place_locals(p):
+                hit = True
+        elif t["k"] == "assert":
+            p = op_place(t["cond"])
+            if p is not None and l in place_locals(p):
+                hit = True
+        # drops are not uses
+        if hit:
+            out.append((bi, "term", t))
+    return out
+
+
+def describe_origin(f, o, depth=0):
+    """stable human readable description of an origin (no local numbers, no lines)"""
+    if depth > 12 or o is None:
+        return "?"
+    k = o[0]
+    if k == "param":
+        return "param:" + (f.local_name(o[1]) or str(o[1]))
+    if k == "call":
+        t = o[1]
+        return "call:" + (t.get("resolved") or t.get("callee") or "indirect")
+    if k == "const":
+        return o[1].get("const", "const")
+    if k == "ref":
+        return "&" + describe_origin(f, o[1], depth + 1)
+    if k == "place":
+        s = describe_origin(f, o[1], depth + 1)
+        for pr in o[2]:
+            if pr == "deref":
+                s = "*" + s
+            elif isinstance(pr, dict) and "f" in pr:
+                s += "." + pr["name"]
+            elif isinstance(pr, dict) and "downcast" in pr:
+                s += "@" + pr["downcast"]
+            elif isinstance(pr, dict) and ("idx" in pr or "cidx" in pr):
+                s += "[]"
+        return s
+    if k == "cast":
+        return describe_origin(f, o[1], depth + 1)
+    if k == "agg":
+        rv = o[1]
+        if rv["agg"] == "adt":
+            return "new:%s::%s" % (rv["adt"], rv["variant"])
+        return "new:" + rv["agg"]
+    if k == "multi":
+        n = f.local_name(o[1])
+        return "var:" + (n or "tmp")
+    if k == "binop":
+        return "binop:" + o[1]["op"]
+    return k
+
+
+def scc_containing(f, b):
+    """blocks x with b ->* x ->* b (the loop around b); empty set if b is not in a cycle"""
+    fwd = set()
+    dq = deque(f.succs(b))
+    while dq:
+        x = dq.popleft()
+        if x in fwd:
+            continue
+        fwd.add(x)
+        dq.extend(f.succs(x))
+    if b not in fwd:
+        return set()
+    bwd = set()
+    dq = deque(f.preds(b))
+    while dq:
+        x = dq.popleft()
+        if x in bwd:
+            continue
+        bwd.add(x)
+        dq.extend(f.preds(x))
+    return (fwd & bwd) | {b}
+
+
+def natural_loop(f, h):
+    """natural loop with header h (union over all back edges p->h with h dom p); empty if none"""
+    tails = [p for p in f.preds(h) if f.dominates(h, p)]
+    if not tails:
+        return set()
+    loop = {h}
+    work = list(tails)
+    while work:
+        x = work.pop()
+        if x in loop:
+            continue
+        loop.add(x)
+        work.extend(f.preds(x))
+    return loop
